@@ -1303,6 +1303,30 @@ def phases_independent(run, repo):
                           sample='%s: %s' % (cname, ' -> '.join(done)) if how == 'pop_species' else None)
                 if not ok:
                     break
+            # the same number of species, other species: the element set is read, then one species is taken out and
+            # another one put in with no read in between (a set remembered per species *count* survives exactly this)
+            for take, kw_take in (('remove_species', {'name': 'B'}), ('pop_species', {'i': C(1)})):
+                for put in ('append_species', 'extend_species'):
+                    I = new_interp(repo)
+                    fr = Frame(I, repo.module('pmutt'), {}, None, None)
+                    a, b, n_ = mk('A', 'H'), mk('B', 'O'), mk('Cc', 'N')
+                    p = fr.apply(ci, [], {'name': 'p', 'species': ListV([a, b])}, None)
+                    first = get_public(I, p, 'elements')
+                    r1 = I.call_method(p, take, [], dict(kw_take))
+                    r2 = I.call_method(p, put, [], {'val': n_ if put == 'append_species' else ListV([n_])})
+                    els = get_public(I, p, 'elements')
+                    got = get_public(I, p, 'species')
+                    ok = not isinstance(r1, Raised) and not isinstance(r2, Raised) and isinstance(first, ListV) and \
+                        sorted(I.plain(x) for x in first.items) == ['H', 'O'] and isinstance(got, ListV) and \
+                        got.items == [a, n_] and isinstance(els, ListV) and \
+                        sorted(I.plain(x) for x in els.items) == ['H', 'N']
+                    o2, f2 = repo.find_method(ci, take)
+                    run.check(ok, 'EFFECT.membership', cname, 'swap between two reads: %s, %s' % (take, put),
+                              'after %s([A(H), B(O)]) -> read elements (%s) -> %s(B) -> %s(Cc(N)) the phase lists %s '
+                              'with elements %s; expected [A, Cc] with elements [H, N]'
+                              % (ci.name, show(first, 40), take, put,
+                                 [getattr(x, 'name', x) for x in got.items] if isinstance(got, ListV) else show(got),
+                                 show(els, 40)), o2.module, f2)
         # removals, on two coexisting phases: the phase lists exactly what is left, in order, its element set follows,
         # and the other phase is untouched
         for how in ('remove_species', 'pop_species', 'clear_species'):
